@@ -145,8 +145,12 @@ def path_modes(ctx, job, box):
 def path_roundtrip(ctx, job, box):
     """SM ?3 then RM ?3: back to the previous width, blank screen, cursor home."""
     cols, lines = job.params['geom']
-    run = GridRun(ctx, box, cols, lines, cursor='pick', tabstops=1, titles='none',
-                  saved_columns=job.params.get('saved', 'none'))
+    if job.params.get('wide'):
+        run = GridRun(ctx, box, cols, lines, cursor=(cols - 1, 0), tabstops=1, titles='none', savepoints=0, buffer='none',
+                      saved_columns=job.params.get('saved', 'none'))
+    else:
+        run = GridRun(ctx, box, cols, lines, cursor='pick', tabstops=1, titles='none',
+                      saved_columns=job.params.get('saved', 'none'))
     L = run.L
     run.call('set_mode', slice_u32([3]), True)
     run.call('reset_mode', slice_u32([3]), True)
@@ -194,6 +198,10 @@ def jobs(tier):
     for op in ('set_mode', 'reset_mode'):
         js.append(Job('%s/?3/132x1' % op, path_modes, op=op, n=1, geom=(132, 1), wide=True, fixed=([3], True), prop=PROP))
         js.append(Job('%s/96/132x1' % op, path_modes, op=op, n=1, geom=(132, 1), wide=True, fixed=([96], False), prop=PROP))
+    # screens wider than the 132 columns DECCOLM switches to (and wider than a byte can count)
+    for w in ((133, 256) if tier == 'quick' else (131, 133, 140, 255, 256, 257, 300, 512)):
+        js.append(Job('set_mode/?3/%dx1' % w, path_modes, op='set_mode', n=1, geom=(w, 1), wide=True, fixed=([3], True), prop=PROP))
+        js.append(Job('roundtrip/%dx1' % w, path_roundtrip, geom=(w, 1), wide=True, prop=PROP))
     return js
 
 
@@ -205,5 +213,6 @@ META = {
     'bounds': 'mode lists of 1..2 (thorough 3) symbolic numbers 0..=9999 with a symbolic private flag, from symbolic '
               'states on {2x1,2x2,1x3} (thorough + {1x1,3x2,2x3}); the 132-column switch is executed for real; the DECCOLM '
               'round trip SM ?3 / RM ?3 from every state',
-    'outside': 'longer mode lists; grids wider than 3 columns other than the 132-column cases',
+    'outside': 'longer mode lists; grids wider than 3 columns other than the 132-column cases and the never-written '
+               'wide screens (quick 133, 256; thorough 131..512 columns) on which SM ?3 and the round trip are run',
 }
